@@ -84,6 +84,8 @@ def base_env():
     env = {n: f.py for n, f in registry.SPEC.items() if f.py is not None}
     env.update(registry.CONSTS)
     env["implies"] = lambda a, b: (not a) or b
+    env["dmap"] = lambda d: dict(d)
+    env["dkeys"] = lambda d: list(d.keys())
     return env
 
 
@@ -191,7 +193,7 @@ def check_one(c, args, repo_root):
                 vals["__old_%d" % i] = None
         compiled[e] = (code, vals)
     fn = resolve_callable(c.key)
-    call_args = [real[p] for p in c.params]
+    call_args = [real[p] for p in c.params if p != "cls"]
     raised = None
     result = None
     try:
